@@ -1,11 +1,11 @@
 """C02 -- echelon forms (layer B: bounded functional checks against spec-side linear algebra; see checks/alg.py)."""
 from vplib.core import with_canaries
-from checks import alg
+from checks import alg, layer_s
 
 LEVEL = "model_checking"
 META = {"explanation": "bounded functional: one concrete (small) shape per group, every bit pattern of the operands; loop bounds found by unwinding refinement and confirmed by unwinding assertions; compared with spec-side linear algebra (contracts/alg_spec.h) that shares no code with the library",
-        "assumptions": ['recursive/large regimes (M4RI block loop beyond 3x5, PLUQ-based route) not reached in the quick tier']}
+        "assumptions": ["mzd_echelonize_pluq (full reduction): shape / window / header-balance contract for all dimensions and ranks only (layer S); its algebra is not decided", 'recursive/large regimes (M4RI block loop beyond 3x5, PLUQ-based route) not reached in the quick tier']}
 
 
 def groups(tier, seed):
-    return with_canaries(alg.c02(tier))
+    return with_canaries(alg.c02(tier)) + with_canaries(layer_s.ech_groups(["C02", "C09", "C11"]))
